@@ -11,6 +11,25 @@ LANG = "pasfmt_core::lang::"
 RS = LANG + "ReconstructionSettings::"
 
 
+def _is_indent_builder(prog, name):
+    """a loop-free workspace function returning a String assembled only from `repeat`ed / pushed indentation and continuation strings"""
+    b = prog.body(name or "")
+    if b is None or not b.crate.startswith("pasfmt") or b.loops() or "String" not in b.locals[0]["ty"]:
+        return False
+    ok_calls = {"get_indentation_str", "get_continuation_str", "repeat", "push_str", "from", "into", "deref", "with_capacity", "new", "as_str", "borrow"}
+    names = [(c.callee or "?").split("::")[-1] for c in b.calls()]
+    if not names or any(n not in ok_calls for n in names) or "repeat" not in names:
+        return False
+    og = Origins(b)
+    for c in b.calls():
+        n = (c.callee or "").split("::")[-1]
+        if n in ("repeat", "push_str"):
+            src = og.of_operand(c.args[0] if n == "repeat" else c.args[1])
+            if not src or not all(x[0] == "call" and x[2].split("::")[-1] in ("get_indentation_str", "get_continuation_str", "repeat") for x in src):
+                return False
+    return True
+
+
 def skip_discipline(prog, rep, R):
     """In try_rewrite_string's per-line loop an interior line may be left out of the result only when it
     is blank: (a) it is a prefix of the closing quotes' indentation, or (b) nothing remains after that
@@ -167,7 +186,9 @@ def check_c12(prog, rep, tier, cfg):
                         continue
                     ao = og.of_operand(c.args[1])
                     names = sorted({x[2].split("::")[-1] for x in ao if x[0] == "call"})
-                    ok = bool(names) and all(n in ("get_newline_str", "get_indentation_str", "get_continuation_str", "next", "strip_prefix") for n in names) and all(x[0] == "call" for x in ao)
+                    # a helper of the same impl that assembles nothing but repetitions of the two indent strings counts as those strings
+                    built = {x[2] for x in ao if x[0] == "call" and _is_indent_builder(prog, x[2])}
+                    ok = bool(names) and all((n in ("get_newline_str", "get_indentation_str", "get_continuation_str", "next", "strip_prefix")) or any(b2.split("::")[-1] == n for b2 in built) for n in names) and all(x[0] == "call" for x in ao)
                     srcs.append(names)
                     rep.check(ok, R, "append:%s:%s" % (short(bd.npath).split("::")[-1], names), "try_rewrite_string appends text of foreign origin: %s" % sorted(map(str, ao)), where=c.where(),
                               instance={"append": c.callee.split("::")[-1], "origin": names})
@@ -189,9 +210,15 @@ def check_c12(prog, rep, tier, cfg):
         made = [c for c in tb.calls() if (c.callee or "") == "alloc::string::String::with_capacity"]
         rep.check(len(made) == 1, R, "fresh-string", "the rewritten literal is not built in a fresh String")
         # counters used are this literal's own (parameter `indent`)
+        helpers = {c.target for c in tb.calls() if c.target and _is_indent_builder(prog, c.target)}
         for f in ("indentations_before", "continuations_before"):
-            rd = prog.field_accesses(LANG + "FormattingData", f, within={tb.npath})
-            rep.check(len(rd) == 1 and rd[0][3] == "read", R, "uses-own-" + f, "try_rewrite_string does not read %s of its `indent` parameter exactly once" % f)
+            rd = prog.field_accesses(LANG + "FormattingData", f, within={tb.npath} | helpers)
+            rep.check(len(rd) == 1 and rd[0][3] == "read", R, "uses-own-" + f, "try_rewrite_string (with its indentation helper) does not read %s of its `indent` parameter exactly once" % f)
+        for hname in helpers:
+            # the helper is handed this literal's own counters
+            for c in tb.calls():
+                if c.target == hname:
+                    rep.check(any(canon(tb, a) == "arg3" for a in c.args), R, "helper-gets-own-counters", "the indentation helper is not called with this literal's own formatting data", where=c.where())
     # ---------------------------------------------------------------- C12.f the re-indenter writes with the settings the reconstructor emits with
     import layout
     layout.same_settings_rule(prog, rep, "C12.f")
